@@ -1,4 +1,16 @@
-(** C01 with binds present, passes in which binds SWAP (stage B2) — CONDITIONAL on one step.
+(** C01 with binds present, passes in which binds SWAP (stage B2).
+
+    UNCONDITIONAL for graphs all of whose bind templates are PLAIN ([PassBindSwapStep.tplain]: no
+    nested bind, [TNil] only as a whole case): [C01_swap_pass_plain] -- a serial pass without a plan
+    from a state satisfying [Inv] and [ValInvB] ends [consistent], with every observer reading the
+    from-scratch value, however many binds swap in it.  The step behind it is
+    [C01_swap_bind_step]: the recompute of a lhs-change node (the bind function runs: inst,
+    changeParent with becameNecessary / adjustHeights / teardown of the old right-hand side,
+    invalidation of the discarded generation) preserves the loop invariant [LInvC]; its
+    structural half is [EngineInvProofs.bind_spec_holds], whose proof is replayed to obtain the
+    intermediate states.
+
+    For arbitrary templates (nested binds) the pass theorem is CONDITIONAL on that one step:
 
     The loop invariant [PassBindSwap.LInvC] (the value clauses of PassBind.LInvB, with "clean" for a
     lhs-change node meaning: the right-hand side of its bind is the instantiation of the case its
@@ -18,7 +30,8 @@
     nested binds included).
     Proofs: PassBindSwapProofs.v. *)
 From incr Require Import Base Heap HeapSpec EngineDefs Engine EngineRun EngineWf Spec SpecProofs EngineLemmas
-     EngineInv EngineInvProofs PassInv PassProofs PassBind PassBindProofs PassBindSwap PassBindSwapProofs.
+     EngineInv EngineInvProofs PassInv PassProofs PassBind PassBindProofs PassBindSwap PassBindSwapProofs
+     PassBindSwapStep.
 
 Theorem C01_swap_start : forall s, Inv s -> ValInvB s -> LInvC (passStart s) None.
 Proof. exact LInvC_start. Qed.
@@ -37,6 +50,36 @@ Theorem C01_swap_pass :
   consistent s' = true /\ observers_agree s' = true /\ Inv s' /\ wfb s' = true.
 Proof. exact passC_observers_agree. Qed.
 Print Assumptions C01_swap_pass.
+
+(** the step for a bind with plain templates (all binds of the state: [Tplain]) *)
+Theorem C01_swap_bind_step : forall fuel s b s' imm,
+  Tplain s -> PInv s -> LInvC s (Some b) -> inGraph (nd s b) = true -> nkind (nd s b) = KBindLhs b ->
+  recomputeNodeSerial fuel [] s b = Ok (s', None, imm) -> PInv s' -> LInvC s' imm /\ Tplain s'.
+Proof. exact bind_step. Qed.
+Print Assumptions C01_swap_bind_step.
+
+(** the pass, unconditionally, for plain templates *)
+Theorem C01_swap_pass_plain : forall s s',
+  Inv s -> ValInvB s -> Tplain s -> stabilize [] false s = Ok (s', None) -> templates_ok s' = true ->
+  consistent s' = true /\ observers_agree s' = true /\ Inv s' /\ wfb s' = true.
+Proof. exact passS_observers_agree. Qed.
+Print Assumptions C01_swap_pass_plain.
+
+(** and the quiescent invariants again: passes chain *)
+Theorem C01_swap_pass_invariants : forall s s',
+  Inv s -> ValInvB s -> Tplain s -> stabilize [] false s = Ok (s', None) -> ValInvB s' /\ Tplain s'.
+Proof. exact passS_ValInvB. Qed.
+Print Assumptions C01_swap_pass_invariants.
+
+Theorem C01_swap_tplain_b_sound : forall s, tplain_b s = true -> Tplain s.
+Proof. exact tplain_b_sound. Qed.
+Print Assumptions C01_swap_tplain_b_sound.
+
+(** Non-vacuity of [C01_swap_pass_plain]: [exS_pre] (reached by a clean history) satisfies its
+    hypotheses, and its pass runs the bind function of bind 2 *)
+Example C01_swap_plain_ex :
+  run_clean (init 64) (take 5 exB_ops) = Some exS_pre /\ Inv exS_pre /\ ValInvB exS_pre /\ Tplain exS_pre.
+Proof. split; [exact exS_pre_run|exact exS_pre_hyps]. Qed.
 
 (** Non-vacuity / evidence: the first pass of [exB_ops] runs the bind function of bind 2 (input
     value 2, new right-hand side root 6); no clause of [LInvC] fails at any step of it, and it ends
